@@ -389,6 +389,22 @@ class Run:
             os.remove(r["outfile"])
         return stats
 
+    def apalache(self, module, args, name, timeout=900, expect_ok=True):
+        """Apalache (symbolic, bounded) on spec/<module>.tla; returns True iff it reports no error."""
+        self.nstage += 1
+        outdir = os.path.join(self.work, "apalache-%02d" % self.nstage)
+        cmd = ["timeout", str(timeout), "apalache-mc", "check", "--out-dir=" + outdir] + list(args) + [os.path.join(self.specdir, module + ".tla")]
+        t = time.time()
+        p = subprocess.run(cmd, cwd=self.work, capture_output=True, text=True)
+        log = p.stdout + p.stderr
+        okay = "EXITCODE: OK" in log
+        shutil.rmtree(outdir, ignore_errors=True)
+        if expect_ok and not okay:
+            raise ToolingError("Apalache failed on %s:\n%s" % (name, "\n".join(log.splitlines()[-25:])))
+        self.models.append({"module": module, "name": name, "tool": "apalache", "args": list(args), "ok": okay, "wall_s": round(time.time() - t, 1)})
+        self.log("Apalache %s: %s, %.1fs" % (name, "no error" if okay else "error reported", time.time() - t))
+        return okay
+
     def race(self, rounds, goroutines=8, stage="race"):
         """Real goroutines sharing compiled expressions under Go's race detector."""
         binary = self.build(race=True)
@@ -396,12 +412,25 @@ class Run:
         out = os.path.join(self.work, "%02d-race.json" % self.nstage)
         p = subprocess.run([binary, "race", "-seed", str(self.seed), "-rounds", str(rounds), "-goroutines", str(goroutines),
                             "-out", out], capture_output=True, text=True)
+        fatal = None
         if p.returncode not in (0, 66):
-            raise ToolingError("race driver failed (%d): %s%s" % (p.returncode, p.stdout, p.stderr[-3000:]))
+            # the Go runtime kills the process on unsynchronised map access ("fatal error: concurrent map ...")
+            # or when a goroutine panics outside the recover of the harness: with frames of the package under
+            # test on the stack that is what concurrent use did to the engine
+            m = re.search(r"fatal error: (concurrent map[^\n]*)", p.stderr)
+            if m and "github.com/antchfx/xpath." in p.stderr:
+                fatal = m.group(1)
+            else:
+                raise ToolingError("race driver failed (%d): %s%s" % (p.returncode, p.stdout, p.stderr[-3000:]))
         res = json.load(open(out)) if os.path.exists(out) else {"calls": 0, "mismatches": []}
         reports = p.stderr.split("WARNING: DATA RACE")[1:]
         ms = []
         seen = set()
+        if fatal:
+            fr = re.findall(r"github\.com/antchfx/xpath\.(\S+)\(", p.stderr)
+            ms.append({"stage": stage, "flow": "B", "kind": "race", "expr": "process killed: %s in %s" % (fatal, fr[0] if fr else "?"), "ctx": 0,
+                       "fail": "fatal-concurrent-access", "via": "goroutines", "want": "no unsynchronised conflicting accesses",
+                       "got": {"report": p.stderr[:1500]}, "case": {"frames": fr[:6]}})
         for rep in reports:
             frames = re.findall(r"github\.com/antchfx/xpath\.(\S+)\(\)\n\s+(\S+:\d+)", rep)
             if not frames:
